@@ -41,7 +41,7 @@ fn info(tier: Tier) -> CheckInfo {
         id: "C12",
         level: "model_checking",
         rule: format!(
-            "Explicit-state BFS (depth {}) whose state is the real RoutingTable + virtual clock, from 6 initial states (empty; one bucket pre-filled through real add() calls with 19 and with 20 fresh nodes; the same aged 14 and 16 minutes; a 20-node bucket whose head is stale and whose tail is fresh) over a 22-action alphabet: add of new ids into the full bucket / another bucket, re-add of a present id with same address / new port / new IP, an insecure id on the IP of a present secure node and vice versa, a second secure id with the same and with a different 21-bit prefix on one IP, an id first seen as insecure on an unrelated IP that later shows up on an occupied IP for which it is secure, add(self id), remove present/absent, re-key to an id in another bucket class and to the id of a present node, clock steps 1/14/16 min. Every state: no self id, unique ids, bucket key = distance, buckets <= 20, size/iteration/is_empty agree, per-IP Sybil limits, to_bootstrap = non-stale entries. Every add: an accepted node's entry is stamped with the current time, a node that is already an entry (same id and address, alone on its IP) is accepted and re-stamped even in a full bucket, nothing foreign appears and at most the stale head of a full bucket (or the same-id entry being replaced) disappears. Address classes: 26 addresses on both sides of every BEP42 exemption boundary (10/8, 172.16/12, 192.168/16, 169.254/16, 127/8) x a family of five ids (two insecure, secure, secure with the same prefix, secure with another prefix) added to an empty table in all 120 orders, the same invariants after every add. Distance classes: one node per first-differing bit (all 160) added to one table in three orders, the same invariants after every add (the bucket key against the harness' own bitwise distance).",
+            "Explicit-state BFS (depth {}) whose state is the real RoutingTable + virtual clock, from 6 initial states (empty; one bucket pre-filled through real add() calls with 19 and with 20 fresh nodes; the same aged 14 and 16 minutes; a 20-node bucket whose head is stale and whose tail is fresh) over a 22-action alphabet: add of new ids into the full bucket / another bucket, re-add of a present id with same address / new port / new IP, an insecure id on the IP of a present secure node and vice versa, a second secure id with the same and with a different 21-bit prefix on one IP, an id first seen as insecure on an unrelated IP that later shows up on an occupied IP for which it is secure, add(self id), remove present/absent, re-key to an id in another bucket class and to the id of a present node, clock steps 1/14/16 min. Every state: no self id, unique ids, bucket key = distance, buckets <= 20, size/iteration/is_empty agree, per-IP Sybil limits, to_bootstrap = non-stale entries. Every add: an accepted node's entry is stamped with the current time, a node that is already an entry (same id and address, alone on its IP) is accepted and re-stamped even in a full bucket, nothing foreign appears and at most the stale head of a full bucket (or the same-id entry being replaced) disappears. Address classes: 26 addresses on both sides of every BEP42 exemption boundary (10/8, 172.16/12, 192.168/16, 169.254/16, 127/8) x a family of six ids (two insecure, secure, secure with the same prefix, secure with another prefix, one matching 20 of the 21 prefix bits) added to an empty table in all 720 orders (every fourth address; 120 of them on the others), the same invariants after every add. Distance classes: one node per first-differing bit (all 160) added to one table in three orders, the same invariants after every add (the bucket key against the harness' own bitwise distance).",
             depth(tier)
         ),
         assumptions: vec![
@@ -466,9 +466,10 @@ fn initial_states(cfg: &Arc<Cfg>) -> Vec<St> {
 }
 
 /// Address classes: the per-IP rules on addresses at both sides of every exemption boundary of
-/// BEP42 (10/8, 172.16/12, 192.168/16, 169.254/16, 127/8). A family of five ids per address -
+/// BEP42 (10/8, 172.16/12, 192.168/16, 169.254/16, 127/8). A family of six ids per address -
 /// two that are insecure there (on a public address), one secure, one secure with the same
-/// 21-bit prefix, one secure with another prefix - is added to an empty table in all 120 orders;
+/// 21-bit prefix, one secure with another prefix, one that matches 20 of the 21 prefix bits - is
+/// added to an empty table in all 720 orders (every fourth address; 120 of them on the others);
 /// every state is judged by the same invariants as the search.
 const SWEEP_IPS: [[u8; 4]; 26] = [
     [9, 255, 255, 255], [10, 0, 0, 0], [10, 255, 255, 255], [11, 0, 0, 0],
@@ -493,6 +494,17 @@ fn sweep_family(own: &Id20, ip: Ipv4Addr) -> Vec<Pn> {
         Pn { id: bep42_id(ip, &f, 1), addr: SocketAddrV4::new(ip, 4002) },
         Pn { id: bep42_id(ip, &f2, 1), addr: SocketAddrV4::new(ip, 4003) },
         Pn { id: bep42_id(ip, &f2, 2), addr: SocketAddrV4::new(ip, 4004) },
+        // almost secure: the BEP42 id for r = 3 with the last of its 21 prefix bits flipped
+        Pn {
+            id: {
+                let mut f3 = f;
+                f3[9] = 0x44;
+                let mut id = bep42_id(ip, &f3, 3);
+                id[2] ^= 0x08;
+                id
+            },
+            addr: SocketAddrV4::new(ip, 4005),
+        },
     ];
     fam
 }
@@ -579,7 +591,8 @@ fn run(tier: Tier, _s: usize, _n: usize, _seed: u64) -> Partial {
         st.check_invariants(&mut out, &[i as u16]);
     }
     for ip_index in 0..SWEEP_IPS.len() {
-        for order in 0..120 {
+        // (all 720 orders on every fourth address, every sixth order on the others)
+        for order in (0..720).step_by(if ip_index % 4 == 3 { 1 } else { 6 }) {
             ip_sweep_one(&cfg, ip_index, order, &mut out);
         }
     }
